@@ -357,6 +357,12 @@ pub fn run(run: &mut Run) {
             (E::Lit(MV::Bool(true)), E::Lit(MV::Bool(true))),
             (E::Lit(MV::Bool(true)), E::Lit(MV::Null)),
             (E::Bin("==", b(x()), b(x())), E::Lit(MV::List(vec![]))),
+            // bodies that ignore the iteration variable but are observable: a logging call with a
+            // constant argument (once per element, never for an empty range) and an error
+            (call("p", vec![E::Lit(MV::Int(1))]), call("tr", vec![E::Lit(MV::Int(1))])),
+            (call("p", vec![E::Lit(MV::Int(9))]), call("tr", vec![E::Lit(MV::Int(2))])),
+            (E::Bin("==", b(E::Bin("/", b(E::Lit(MV::Int(1))), b(E::Lit(MV::Int(0))))), b(E::Lit(MV::Int(1)))), E::Bin("/", b(E::Lit(MV::Int(1))), b(E::Lit(MV::Int(0))))),
+            (call("p", vec![E::Lit(MV::Int(0))]), x()),
         ];
         for form in FORMS.iter() {
             for (pred_b, tr_b) in bodies.iter() {
